@@ -8,6 +8,7 @@ CONSTANTS
     Debug = FALSE
     HookMode = "ok"
     PvSet = TRUE
+    Hang = FALSE
     DrainOnRefusal = TRUE
 VIEW View
 INVARIANTS InFrame NeverMisframed
